@@ -33,11 +33,11 @@ TABLE = {
     SM + "get_token_count": [["cast<u32>(Vec::len(arg1.tokens))"]],
     SM + "get_source_count": [["cast<u32>(Vec::len(arg1.sources))"]],
     SM + "get_name_count": [["cast<u32>(Vec::len(arg1.names))"]],
-    SM + "get_name": [["Option::map(slice::get(arg1.names,cast<usize>(arg2)),closure:get_name::{closure#0})"]],
-    SM + "get_source": [["Option::map(slice::get(Option::unwrap_or(Option::as_deref(arg1.sources_prefixed),arg1.sources),cast<usize>(arg2)),closure:get_source::{closure#0})"]],
+    SM + "get_name": [["Option::map(slice::get(arg1.names,cast<usize>(arg2)),\u03bb(p1[RangeFull{}]))"]],
+    SM + "get_source": [["Option::map(slice::get(Option::unwrap_or(Option::as_deref(arg1.sources_prefixed),arg1.sources),cast<usize>(arg2)),\u03bb(p1[RangeFull{}]))"]],
     SM + "get_source_contents": [["Option::map(Option::and_then(slice::get(arg1.sources_content,cast<usize>(arg2)),fn:Option::as_ref),fn:SourceView::source)"]],
     SM + "get_source_view": [["Option::and_then(slice::get(arg1.sources_content,cast<usize>(arg2)),fn:Option::as_ref)"]],
-    SM + "get_token": [["Option::map(slice::get(arg1.tokens,arg2),closure:get_token::{closure#0})"]],
+    SM + "get_token": [["Option::map(slice::get(arg1.tokens,arg2),\u03bb(Token{raw:p1,sm:^arg1,idx:^arg2,offset:0}))"]],
     SM + "tokens": [["TokenIter{i:arg1,next_idx:0}"]],
     SM + "sources": [["SourceIter{i:arg1,next_idx:0}"]],
     SM + "names": [["NameIter{i:arg1,next_idx:0}"]],
@@ -49,7 +49,7 @@ TABLE = {
     SEC + "get_url": [["Option::as_deref(arg1.url)"]],
     SEC + "get_sourcemap": [["Option::map(Option::as_ref(arg1.map),fn:AsRef::as_ref)"], ["Option::as_deref(arg1.map)"]],
     SEC + "new": [["SourceMapSection{offset:arg1,url:arg2,map:Option::map(arg3,fn:Box::new)}"]],
-    IDX + "get_file": [["Option::map(Option::as_ref(arg1.file),closure:get_file::{closure#0})"], ["Option::as_deref(arg1.file)"]],
+    IDX + "get_file": [["Option::map(Option::as_ref(arg1.file),\u03bb(p1[RangeFull{}]))"], ["Option::as_deref(arg1.file)"]],
     IDX + "get_section": [["slice::get(arg1.sections,cast<usize>(arg2))"]],
     IDX + "sections": [["SourceMapSectionIter{i:arg1,next_idx:0}"]],
     IDX + "new": [["SourceMapIndex{file:arg1,sections:arg2,x_facebook_offsets:Option::None{},x_metro_module_paths:Option::None{}}"]],
@@ -60,7 +60,7 @@ TABLE = {
     "<types::SourceMapSectionIter<'a> as core::iter::traits::iterator::Iterator>::next": [["Option::inspect(SourceMapIndex::get_section(arg1.i,arg1.next_idx),closure:next::{closure#0})"]],
     "<types::SourceContentsIter<'a> as core::iter::traits::iterator::Iterator>::next": [["Option::None{}", "Option::Some{0:SourceMap::get_source_contents(arg1.i,arg1.next_idx)}"]],
     "<types::Token<'_> as core::cmp::PartialEq>::eq": [["PartialEq::eq(arg1.raw,arg2.raw)"]],
-    "builder::SourceMapBuilder::get_source": [["Option::map(slice::get(arg1.sources,cast<usize>(arg2)),closure:get_source::{closure#0})"]],
+    "builder::SourceMapBuilder::get_source": [["Option::map(slice::get(arg1.sources,cast<usize>(arg2)),\u03bb(p1[RangeFull{}]))"]],
     "builder::SourceMapBuilder::get_file": [["Option::as_deref(arg1.file)"]],
     "builder::SourceMapBuilder::get_source_root": [["Option::as_deref(arg1.source_root)"]],
     "builder::SourceMapBuilder::add_source": [["SourceMapBuilder::add_source_with_id(arg1,arg2,Not(0))"]],
@@ -111,10 +111,4 @@ def accessors(ctx, rule, only=None):
     if sc is not None:
         adv = [q.shape(sc.expr_of_rvalue(s["rv"])) for bi, si, s, it2 in sc.locations() if not it2 and s["k"] == "assign" and s["place"]["p"] and s["place"]["p"][-1].get("n") == "next_idx"]
         ctx.check(adv == ["Add(1,arg1.next_idx)"], rule, sc.path, "advance", "SourceContentsIter advances by one", detail=str(adv))
-    for p, want in ((SM + "get_name::{closure#0}", "arg2[RangeFull{}]"), (SM + "get_source::{closure#0}", "arg2[RangeFull{}]")):
-        if only is not None and not any(x in p for x in only):
-            continue
-        cl = ctx.body(p)
-        calls = [q.shape(cl.expr_of_call(t)) for bi, t in cl.calls()]
-        ctx.check(want in calls and all(c in (want, "arg2") or c.startswith("Deref::deref") for c in calls), rule, p, "whole-string", "the accessor returns the whole stored string", detail=str(calls))
     ctx.floor(rule, "accessors", "accessors checked", n, 10 if only else 50)
